@@ -42,10 +42,11 @@ def scn_timeouts(ctx):
         ctx.assume(s_or(T == 0, T >= SEP * 2 * eps))
         s = ctx.real("s%d" % i, lo=0)
         c = ctx.real("c%d" % i, lo=0)
-        percall = ctx.choice(2, "percall%d" % i) if form == "executor" else 1
+        percall = (ctx.choice(2, "percall%d" % i) if p.get("percall_choice", True) else 1) if form == "executor" else 1
         # 0 never, 1 value well before, 2 value well after, 3 value at the deadline (race),
         # 4 cancelled by someone else well before
-        regime = ctx.choice(5, "regime%d" % i)
+        regimes = p.get("regimes", [0, 1, 2, 3, 4])
+        regime = regimes[ctx.choice(len(regimes), "regime%d" % i)]
         specs.append(dict(i=i, T=T if percall else Tdef, s=s, c=c, percall=percall, regime=regime))
         horizon = horizon + T + s + c
     futs = [None] * n
@@ -155,13 +156,23 @@ def scn_timeouts(ctx):
     return True
 
 
+ASSUMPTIONS = ["timeouts are 0 or >= 128*eps; a delegate never completes, or completes >= 64*eps before its deadline, >= 64*eps after it, or exactly at it (race resolved by the schedule), or is cancelled by someone else well before",
+               "never-early is asserted against the earliest possible creation instant (start of the submit call); exactly-then as cancel <= (return of submit) + T + 40*eps"]
+BOUNDS_TEXT = {"quick": "1 future (executor and f_timeout forms, P<=1); 2 futures from 2 submitter threads with symbolic instants (P=0)",
+               "thorough": "1 future P<=2; 2 futures P<=1; 3 futures P=0; adversarial clock for never-early"}
+MUST_REACH = {"*": ["not-done-at-deadline", "completed-before-deadline", "completed-at-deadline"]}
+BUDGET = {"quick": 150.0, "thorough": 1500.0}
+
+
 def plan(tier, seed):
-    items = []
+    T = "timeouts"
     if tier == "quick":
-        items.append(dict(scenario="timeouts", params=dict(n=1, form="executor"), bounds=dict(P=1)))
-        items.append(dict(scenario="timeouts", params=dict(n=1, form="f_timeout"), bounds=dict(P=1)))
-        items.append(dict(scenario="timeouts", params=dict(n=2, form="executor", submitters=2), bounds=dict(P=0)))
-    else:
-        items.append(dict(scenario="timeouts", params=dict(n=1, form="executor"), bounds=dict(P=2)))
-        items.append(dict(scenario="timeouts", params=dict(n=2, form="executor", submitters=2), bounds=dict(P=1)))
-    return items
+        return [dict(scenario=T, params=dict(n=1, form="executor"), bounds=dict(P=1)),
+                dict(scenario=T, params=dict(n=1, form="f_timeout"), bounds=dict(P=1)),
+                dict(scenario=T, params=dict(n=2, form="executor", submitters=2, regimes=[0, 1, 3], percall_choice=False), bounds=dict(P=0))]
+    return [dict(scenario=T, params=dict(n=1, form="executor"), bounds=dict(P=2)),
+            dict(scenario=T, params=dict(n=1, form="f_timeout"), bounds=dict(P=2)),
+            dict(scenario=T, params=dict(n=1, form="executor", regimes=[0, 1, 2]), bounds=dict(P=1, adversarial=True)),
+            dict(scenario=T, params=dict(n=2, form="executor", submitters=2), bounds=dict(P=0)),
+            dict(scenario=T, params=dict(n=2, form="executor", submitters=1, regimes=[0, 1, 3]), bounds=dict(P=1)),
+            dict(scenario=T, params=dict(n=3, form="executor", submitters=2, regimes=[0, 1], percall_choice=False), bounds=dict(P=0))]
